@@ -21,7 +21,8 @@
   * `C14_insertVertex_beta_structure` — the same `InsertResult` (one new dart per side) for `insert_vertex_on_edge`, the
       `k = 1` kernel with its own code path.
 
-  NOT PROVED: that the vertex orbits of the two END points keep their dart sets (oracle of c14.py).
+  CONTINUED in Props/C14c.lean: the vertices of the old darts (end points included) keep their dart sets, identifiers
+  and coordinates.
 -/
 import Honeycomb.Lemmas.KernelWF2
 import Honeycomb.Props.C14
